@@ -294,7 +294,7 @@ def cell_bytes(v):
         if -32768 <= v <= 32767:
             return 79, struct.pack('>h', v)
         return 73, struct.pack('>i', v)
-    return 68, enc68(v)
+    return 68, enc68_nearest(Fraction(v))
 
 
 def table_record(lr_type, name, columns, rows):
